@@ -588,6 +588,10 @@ def bcast_shape(rg, bs, h, kind):
     return tuple(bs) + (1,)
   if kind == 'batch1':
     return (1,) * len(bs) + (h,)
+  if kind in ('bpart', 'bpart_head1'):
+    # same rank, broadcast over SOME batch dimensions only (needs two batch dims to differ from full/batch1)
+    keep = int(rg.integers(0, max(len(bs), 1)))
+    return tuple(b if i == keep else 1 for i, b in enumerate(bs)) + ((h,) if kind == 'bpart' else (1,))
   raise ValueError(kind)
 
 
@@ -599,8 +603,18 @@ def attn_fn_configs(ctx, n):
     out.append(dict(batch=BATCHES[i % 3], Tq=tq, Tk=r.choice([tq, tq, 1 + r.randrange(5)]), H=1 + (i // 3) % 3, D=r.choice([1, 2, 3]),
                     Dv=0, bias=r.choice(['none', 'full', 'head1', 'batch1']),
                     mask=r.choice(['none', 'full', 'full', 'head1', 'batch1']), dead=r.random() < 0.6,
+                    partial=r.choice(['', '', 'bias', 'mask', 'both']),
                     mask_bool=r.random() < 0.5, eager=r.random() < 0.15))
     out[-1]['Dv'] = out[-1]['D'] if r.random() < 0.75 else 1 + out[-1]['D'] % 3  # Dv != D: Linen function and NNX explicit path only
+    c = out[-1]
+    if len(c['batch']) >= 2:
+      # masks/biases that broadcast over some batch dimensions only
+      if c.pop('partial') in ('bias', 'both'):
+        c['bias'] = r.choice(['bpart', 'bpart_head1'])
+      if i % 2 and c['mask'] != 'none' or c['bias'] in ('bpart', 'bpart_head1') and r.random() < 0.5:
+        c['mask'] = r.choice(['bpart', 'bpart_head1'])
+    else:
+      c.pop('partial')
   return out
 
 
@@ -748,6 +762,14 @@ def mha_configs(ctx, n):
     out[-1]['nqk'] = r2.random() < 0.35
     if out[-1]['nqk']:
       out[-1]['D'] = r2.choice([4, 8])
+    r3 = ctx.rng('attn.mha', 'bpart', i)
+    if len(out[-1]['batch']) >= 2 and r3.random() < 0.5:
+      # mask / bias broadcasting over one of the two batch dimensions only
+      which = r3.choice(['mask', 'bias', 'both'])
+      if which in ('mask', 'both'):
+        out[-1]['mask'] = r3.choice(['bpart', 'bpart_head1'])
+      if which in ('bias', 'both'):
+        out[-1]['bias'] = r3.choice(['bpart', 'bpart_head1'])
   return out
 
 
